@@ -342,7 +342,14 @@ fn run(q: &Q) -> Out {
                 match &first {
                     None => first = Some((o, b0)),
                     Some((f, fb)) => {
-                        if f.len() != o.len() || f.iter().zip(o.iter()).any(|(a, b)| a.text != b.text) || *fb != b0 { stable = false; }
+                        if f.len() != o.len() || f.iter().zip(o.iter()).any(|(a, b)| a.text != b.text) || *fb != b0 {
+                            stable = false;
+                            if std::env::var("HC_DEBUG_UNSTABLE").is_ok() {
+                                eprintln!("UNSTABLE src={} dst={}", fmt_ia(q.src), fmt_ia(q.dst));
+                                for (k, a) in f.iter().enumerate() { eprintln!("  run1[{k}] {}", a.text); }
+                                for (k, a) in o.iter().enumerate() { eprintln!("  runN[{k}] {}", a.text); }
+                            }
+                        }
                     }
                 }
             }
